@@ -6,7 +6,7 @@
    and refuted by witness for the two deviations the pinned commit had (extra (n+1) factor in prune-regraft; the
    "holder keeps a point" rule applied to the outlier set).  The subtree move reduces to C01 when the chosen
    clone is top-level; its state-dependent subtree choice in general is NOT covered by a theorem (known finding). *)
-From PV Require Import Model.Gibbs Model.DpMove Proofs.GibbsProofs Proofs.DpMoveProofs Proofs.DpMoveInvariant.
+From PV Require Import Model.Gibbs Model.DpMove Proofs.GibbsProofs Proofs.DpMoveProofs Proofs.DpMoveInvariant Model.PrgMove Proofs.PrgMoveProofs.
 
 Theorem C04_gibbs_partition_invariant :
   forall (A : Type) (gamma : A -> Qc) (blocks : list (list A)) (cand : A -> list A) (f : A -> Qc),
@@ -46,6 +46,26 @@ Theorem C04_dp_move_invariant :
 Proof. exact dp_move_invariant. Qed.
 Print Assumptions C04_dp_move_invariant.
 
+(* prune-regraft on the parent-function model: regrafting the pruned node v leaves the set of attachment points
+   unchanged, so the candidate list is the same from every candidate, and for a fixed v the move is a Gibbs step on
+   fibers; the pruned node is drawn uniformly from a node list that is the same on the whole fiber
+   (C04_aux_mixture_invariant then gives the mixture) *)
+Theorem C04_prg_candidates_closed : forall v s s', In s' (prg_cand v s) -> prg_cand v s' = prg_cand v s.
+Proof. exact prg_candidates_closed. Qed.
+Print Assumptions C04_prg_candidates_closed.
+
+Theorem C04_prg_fixed_node_invariant :
+  forall (gamma : state -> Qc) (v : nat) (reps : list state) (f : state -> Qc),
+    (forall r, In r reps -> total gamma (prg_cand v r) <> 0) ->
+    let S := concat (map (prg_cand v) reps) in
+    E (wlist gamma S) (fun s => E (gibbs gamma (prg_cand v s)) f) = E (wlist gamma S) f.
+Proof. exact prg_fixed_node_invariant. Qed.
+Print Assumptions C04_prg_fixed_node_invariant.
+
+Theorem C04_prg_node_list_constant_on_fiber : forall v s s', In s' (prg_cand v s) -> map fst s' = map fst s.
+Proof. exact prg_cand_keys. Qed.
+Print Assumptions C04_prg_node_list_constant_on_fiber.
+
 (* witnesses *)
 Open Scope nat_scope.
 Definition flat (_ : state) : Qc := 1%Qc.
@@ -69,6 +89,13 @@ Proof.
   intros c [<-|[<-|[]]]; [exists 0| exists 1]; (split; [discriminate| cbn; auto]).
 Qed.
 Print Assumptions C04_dp_move_premises_satisfiable.
+
+(* non-vacuity: the chain 0 <- 1 <- 2 (2 deepest); pruning node 1 (with its child 2) leaves the top level and node 0 *)
+Example C04_prg_example :
+  let s : state := [(0, None); (1, Some 0); (2, Some 1)] in
+  attach_points s 1 = [None; Some 0] /\ length (prg_cand 1 s) = 2 /\ attach_points s 2 = [None; Some 0; Some 1].
+Proof. repeat split; vm_compute; reflexivity. Qed.
+Print Assumptions C04_prg_example.
 
 (* prune-regraft with the pinned extra factor: a two-candidate fiber with equal target but extra factors 1 and 2 *)
 Example C04_prg_extra_refuted :
